@@ -63,6 +63,10 @@ def extract(tier="quick", repo=REPO, verbose=False):
         done = os.path.join(out, "DONE-bins" if want_bins else "DONE")
         info = {"tree_hash": th, "cached": True}
         if os.path.exists(done) or (not want_bins and os.path.exists(os.path.join(out, "DONE-bins"))):
+            try:
+                os.utime(out, None)  # mark as recently used for the cache GC
+            except OSError:
+                pass
             return out, th, info
         info["cached"] = False
         t0 = time.time()
@@ -99,9 +103,11 @@ def extract(tier="quick", repo=REPO, verbose=False):
         lock.close()
 
 
-def _gc(root, keep, maxn=6):
+def _gc(root, keep, maxn=12, min_age_s=3600):
+    """drop the oldest cached fact dirs; never one that was used within the last hour (another check may be reading it)"""
+    now = time.time()
     ds = [os.path.join(root, d) for d in os.listdir(root)]
-    ds = [d for d in ds if os.path.isdir(d) and d != keep]
+    ds = [d for d in ds if os.path.isdir(d) and d != keep and now - os.path.getmtime(d) > min_age_s]
     ds.sort(key=os.path.getmtime)
     while len(ds) > maxn - 1:
         shutil.rmtree(ds.pop(0), ignore_errors=True)
